@@ -11,7 +11,7 @@
      message Opt { optional <t> f_<t> for the 15 scalar types; optional E f_enum; optional Sub sub;
                    repeated int32 ri; repeated string rs; repeated Sub rm; map<string,int32> mp;
                    optional group Grp { optional int32 g; } (field name grp);
-                   optional google.protobuf.Any any; extensions; }
+                   optional google.protobuf.Any any; map<string,Sub> mm; extensions; }
      extend Opt { optional int32 oext; optional Sub osub; }
      extend google.protobuf.<Kind>Options { optional <t> x_<t>; optional E x_enum; optional Opt m;
                    repeated int32 r; repeated Sub rm; }
@@ -139,6 +139,7 @@ SubFields == { F("x", "int32", "", "one", FALSE, "Sub.x"), F("y", "string", "", 
                F("rx", "int32", "", "rep", FALSE, "Sub.rx") }
 GrpFields == { F("g", "int32", "", "one", FALSE, "Grp.g") }
 AnyFields == { F("type_url", "string", "", "one", FALSE, "Any.type_url"), F("value", "bytes", "", "one", FALSE, "Any.value") }
+MapMFields == { F("key", "string", "", "one", FALSE, "MpM.key"), F("value", "msg", "Sub", "one", FALSE, "MpM.value") }
 MapFields == { F("key", "string", "", "one", FALSE, "Mp.key"), F("value", "int32", "", "one", FALSE, "Mp.value") }
 OptFields == { F("f_" \o t, t, ValT(t), "one", FALSE, "Opt.f_" \o t) : t \in ValueTypes } \cup
              { F("sub", "msg", "Sub", "one", FALSE, "Opt.sub"),
@@ -148,6 +149,7 @@ OptFields == { F("f_" \o t, t, ValT(t), "one", FALSE, "Opt.f_" \o t) : t \in Val
                F("mp", "msg", "Mp", "map", FALSE, "Opt.mp"),
                F("grp", "grp", "Grp", "one", FALSE, "Opt.grp"),
                F("any", "msg", "Any", "one", FALSE, "Opt.any"),
+               F("mm", "msg", "MpM", "map", FALSE, "Opt.mm"),
                F("oext", "int32", "", "one", TRUE, "oext"),
                F("osub", "msg", "Sub", "one", TRUE, "osub") }
 CustomTop == { F("x_" \o t, t, ValT(t), "one", TRUE, "x_" \o t) : t \in ValueTypes } \cup
@@ -182,6 +184,7 @@ Fields(mt, kind) ==
     [] mt = "Grp" -> GrpFields
     [] mt = "Mp"  -> MapFields
     [] mt = "Any" -> AnyFields
+    [] mt = "MpM" -> MapMFields
 
 (* an option-name component names a field by its name; extensions by (p.name) *)
 Find(mt, kind, np) == { f \in Fields(mt, kind) : f.n = np.n /\ f.ext = np.ext }
@@ -334,6 +337,7 @@ StripEs(mt, es, kind, sch) ==
          f == FieldByEntry(mt, kind, e.n)
      IN IF f.t \in {"msg", "grp"} /\ f.card = "one" THEN E(e.n, CMsg(StripEs(f.mt, e.v.fs, kind, sch)))
         ELSE IF f.t = "msg" /\ f.card = "rep" THEN E(e.n, V("lst", FALSE, "", StripList(f.mt, e.v.fs, kind, sch)))
+        ELSE IF f.card = "map" THEN E(e.n, V("map", FALSE, "", StripList(f.mt, e.v.fs, kind, sch)))   \* entry = {key, value}
         ELSE e]
 StripList(mt, ls, kind, sch) == [j \in 1..Len(ls) |-> E("", CMsg(StripEs(mt, ls[j].v.fs, kind, sch)))]
 
@@ -350,6 +354,23 @@ RemovedEs(mt, es, kind, sch, prefix) ==
              ELSE {}
           : i \in 1..Len(es) }
 
+(* map fields: something is removed inside a VALUE of the map.  Entries of a map have no index that
+   could be recovered from the value (protoc numbers them in statement order), so the locations below such
+   a map field are not decided here: the driver ignores them (paths to the map fields are exported as fuzzy) *)
+RECURSIVE FuzzyEs(_, _, _, _, _)
+FuzzyEs(mt, es, kind, sch, prefix) ==
+  UNION { LET e == es[i]
+              f == FieldByEntry(mt, kind, e.n)
+              p == Append(prefix, e.n)
+          IN IF RetOf(f, sch) = "SOURCE" THEN {}
+             ELSE IF f.t \in {"msg", "grp"} /\ f.card = "one" THEN FuzzyEs(f.mt, e.v.fs, kind, sch, p)
+             ELSE IF f.t = "msg" /\ f.card = "rep" THEN
+                 UNION { FuzzyEs(f.mt, e.v.fs[j].v.fs, kind, sch, Append(p, ToString(j - 1))) : j \in 1..Len(e.v.fs) }
+             ELSE IF f.card = "map" /\ \E j \in 1..Len(e.v.fs) : RemovedEs(f.mt, e.v.fs[j].v.fs, kind, sch, <<>>) # {}
+                  THEN {p}
+             ELSE {}
+          : i \in 1..Len(es) }
+
 (* the options message of an element: when every set field has source retention the options
    message itself goes away (documented: "we'll clear out the options by returning the zero
    value"), and with it every location under it; a NESTED message that loses all its fields stays
@@ -357,6 +378,7 @@ RemovedEs(mt, es, kind, sch, prefix) ==
 StripTop(es, kind, sch) ==
   LET out == StripEs("TOP", es, kind, sch)
       rem == RemovedEs("TOP", es, kind, sch, <<>>)
-  IN IF Len(es) > 0 /\ Len(out) = 0 THEN [absent |-> TRUE, es |-> <<>>, removed |-> {<<>>}, changed |-> TRUE]
-     ELSE [absent |-> Len(es) = 0, es |-> out, removed |-> rem, changed |-> rem # {}]
+  IN IF Len(es) > 0 /\ Len(out) = 0 THEN [absent |-> TRUE, es |-> <<>>, removed |-> {<<>>}, fuzzy |-> {}, changed |-> TRUE]
+     ELSE [absent |-> Len(es) = 0, es |-> out, removed |-> rem, fuzzy |-> FuzzyEs("TOP", es, kind, sch, <<>>),
+           changed |-> out # es]
 =============================================================================
